@@ -1,3 +1,929 @@
-//! C23 — not built yet.
-pub const BUILT: bool = false;
-pub fn run(_rep: &mut vx::Report) {}
+//! C23 — cryptographic building blocks match their reference definitions.
+//!
+//! The library's public functions in `oxidize_pdf::encryption` (and, for the reader-side use
+//! of Algorithm 2 with /EncryptMetadata, `oxidize_pdf::parser::EncryptionHandler`) are compared
+//! with `refpdf::crypto`, which is written from FIPS-197 / RFC 6229 / ISO 32000-1 §7.6 /
+//! ISO 32000-2 §7.6 and bound to qpdf and pypdf through their fixtures.
+//!
+//! Sections (everything enumerated, nothing sampled):
+//!  * `rc4`           key length × byte pattern, every data length inside: keystream equality,
+//!                    decrypt∘encrypt = id, in-place and split processing.
+//!  * `aes-cbc`       key size × key pattern × IV pattern, every data length 0..=64 and
+//!                    {255,256,257,4096} × 2 data patterns: CBC+PKCS#7, raw CBC, ECB.
+//!  * `permissions`   all 256 flag sets against ISO 32000-1 Table 22.
+//!  * `handler-rc4`   R2,R3,R4 × password family × owner mode × P × file id, every password
+//!                    length 0..=127: Algorithms 1–7 through the handler API.
+//!  * `reader-rc4`    the same algorithms as the reader uses them (with /EncryptMetadata),
+//!                    on encryption dictionaries produced by the reference.
+//!  * `handler-aes256` R5,R6 × family × owner mode × seed, every password length 0..=127:
+//!                    Algorithms 2.A, 2.B, 8, 9, 11, 12 (library entries verified by the
+//!                    reference, reference entries opened by the library).
+//!  * `perms-entry`   Algorithms 10 and 13: P × EncryptMetadata × key pattern × seed.
+//!  * `saslprep`      three passwords whose SASLprep form is pinned by RFC 3454/4013.
+//!  * `object-cipher` per-object string/stream encryption of each handler (Algorithm 1, 1.A).
+use oxidize_pdf::encryption::{
+    compute_hash_r6_algorithm_2b, Aes, AesKey, EncryptionKey, OwnerPassword, PermissionFlags, Permissions, Rc4, Rc4Key, StandardSecurityHandler, UserPassword,
+};
+use oxidize_pdf::objects::ObjectId;
+use oxidize_pdf::parser::{EncryptionHandler, PdfDictionary, PdfName, PdfObject, PdfString};
+use refpdf::crypto as rc;
+use serde_json::json;
+use vx::{Ctx, Explore, Report};
+
+pub const BUILT: bool = true;
+
+// ---------------------------------------------------------------- byte patterns
+
+const PATTERN_NAMES: [&str; 4] = ["zeros", "ones", "counter", "scrambled"];
+fn pattern(kind: usize, n: usize, salt: usize) -> Vec<u8> {
+    match kind {
+        0 => vec![0u8; n],
+        1 => vec![0xFFu8; n],
+        2 => (0..n).map(|i| ((i + salt) % 256) as u8).collect(),
+        _ => (0..n).map(|i| (((i + salt) * 167 + 13 + (i * i) / 3) % 256) as u8).collect(),
+    }
+}
+
+// ---------------------------------------------------------------- passwords
+
+const FAMILIES: [&str; 4] = ["ascii-alnum", "ascii-printable", "latin1-letters", "mixed"];
+const ALNUM: &[u8] = b"abcdefghijklmnopqrstuvwxyzABCDEFGHIJKLMNOPQRSTUVWXYZ0123456789";
+const LATIN: [char; 8] = ['é', 'ñ', 'ü', 'ß', 'É', 'Ø', 'å', 'ç'];
+const MIXED: [char; 7] = ['a', 'é', 'Z', '€', '9', 'ñ', '('];
+
+/// A password whose UTF-8 form has exactly `nbytes` bytes. All characters are SASLprep-stable
+/// (NFKC-invariant, not in any RFC 3454 mapping or prohibition table) and exist in
+/// PDFDocEncoding.
+pub fn pw_string(family: usize, nbytes: usize, salt: usize) -> String {
+    let mut s = String::new();
+    let mut i = salt;
+    while s.len() < nbytes {
+        let left = nbytes - s.len();
+        let c: char = match family {
+            0 => ALNUM[i % ALNUM.len()] as char,
+            1 => (0x20 + (i % 95) as u8) as char,
+            2 => {
+                if left >= 2 {
+                    LATIN[i % LATIN.len()]
+                } else {
+                    'x'
+                }
+            }
+            _ => {
+                let c = MIXED[i % MIXED.len()];
+                if c.len_utf8() <= left {
+                    c
+                } else {
+                    'x'
+                }
+            }
+        };
+        s.push(c);
+        i += 1;
+    }
+    debug_assert_eq!(s.len(), nbytes);
+    s
+}
+
+/// ISO 32000-1 §7.6.3.3: the password is converted to PDFDocEncoding (Annex D.2: U+0020..7E
+/// and U+00A1..FF map to themselves, the euro sign to 0xA0). None when a character is not in
+/// the encoding.
+fn pdfdoc_bytes(s: &str) -> Option<Vec<u8>> {
+    s.chars()
+        .map(|c| match c as u32 {
+            0x20..=0x7E => Some(c as u8),
+            0xA1..=0xAC | 0xAE..=0xFF => Some(c as u32 as u8),
+            0x20AC => Some(0xA0),
+            _ => None,
+        })
+        .collect()
+}
+
+fn owner_for(mode: usize, family: usize, len: usize, user: &str) -> String {
+    match mode {
+        0 => pw_string(family, (len * 3 + 5) % 128, 11),
+        1 => user.to_string(),
+        _ => String::new(),
+    }
+}
+const OWNER_MODES: [&str; 3] = ["distinct", "same-as-user", "empty"];
+
+const P_QUICK: [u32; 6] = [0xFFFF_FFFC, 0xFFFF_F0C0, 0xFFFF_F0C4, 0x0000_0000, 0x7FFF_FFFF, 0x8000_0004];
+const P_MORE: [u32; 8] = [0xFFFF_F0C8, 0xFFFF_F0D0, 0xFFFF_F0E0, 0xFFFF_F1C0, 0xFFFF_F2C0, 0xFFFF_F4C0, 0xFFFF_F8C0, 0x0000_00FF];
+
+fn file_id(k: usize) -> Vec<u8> {
+    match k {
+        0 => vec![0u8; 16],
+        1 => (0..16u8).map(|i| i.wrapping_mul(37).wrapping_add(0xC8)).collect(),
+        _ => (0..32u8).map(|i| 0xFF - i).collect(),
+    }
+}
+
+fn handler_for(rev: usize) -> (StandardSecurityHandler, u8, usize, &'static str) {
+    match rev {
+        0 => (StandardSecurityHandler::rc4_40bit(), 2, 5, "R2/rc4_40bit"),
+        1 => (StandardSecurityHandler::rc4_128bit(), 3, 16, "R3/rc4_128bit"),
+        _ => (StandardSecurityHandler::aes_128_r4(), 4, 16, "R4/aes_128_r4"),
+    }
+}
+
+fn lib<T>(f: impl FnOnce() -> oxidize_pdf::error::Result<T>) -> Result<T, String> {
+    match vx::guard(f) {
+        Ok(Ok(v)) => Ok(v),
+        Ok(Err(e)) => Err(format!("error: {e}")),
+        Err(p) => Err(format!("PANIC {p}")),
+    }
+}
+
+pub fn run(rep: &mut Report) {
+    let thorough = rep.tier.is_thorough();
+    rep.rule(
+        "one execution = one cell of the section's parameter grid with every length of the dense range evaluated inside \
+         (counted as evaluations); non-trivial = the cell feeds at least one non-empty input to the library; \
+         distinct = distinct parameter tuple",
+    );
+    rep.assume("refpdf::crypto is correct: FIPS-197/SP 800-38A/RFC 6229 vectors pass and it decrypts all 28 qpdf/pypdf fixtures with both passwords");
+    rep.assume("MD5, SHA-256/384/512 of the md5 and sha2 crates are correct");
+    rep.assume("Algorithm 2.B counts rounds as qpdf, pypdf and MuPDF do (test 'last byte <= rounds-32' after round 64 with the number of completed rounds)");
+    rep.assume("R5/R6 passwords use SASLprep-stable characters except in section saslprep; R2-R4 passwords use characters present in PDFDocEncoding");
+    rep.assume("an empty owner password may be hashed as such or replaced by the user password (Algorithm 3 step a) - both accepted");
+    rep.note("out_of_scope", json!("key/data VALUES outside the pattern families; passwords longer than 127 bytes; AES IV uniqueness (IVs come from the seeded hook)"));
+
+    rc4_section(rep, thorough);
+    aes_section(rep, thorough);
+    permissions_section(rep);
+    handler_rc4_section(rep, thorough);
+    reader_rc4_section(rep, thorough);
+    handler_aes256_section(rep, thorough);
+    perms_entry_section(rep, thorough);
+    saslprep_section(rep);
+    object_cipher_section(rep, thorough);
+}
+
+// ================================================================ RC4
+
+fn rc4_section(rep: &mut Report, thorough: bool) {
+    let max_key = if thorough { 256 } else { 32 };
+    let mut lens: Vec<usize> = (0..=if thorough { 128 } else { 48 }).collect();
+    if thorough {
+        lens.extend([255, 256, 257, 1024]);
+    }
+    rep.explore("rc4", Explore::full(), |c: &mut Ctx| {
+        let klen = 1 + c.choose("key_len-1", max_key);
+        let kp = c.choose("key_pattern", 4);
+        let dp = c.choose("data_pattern", 4);
+        c.input(vx::h64(&(klen, kp, dp)));
+        c.nontrivial();
+        let key = pattern(kp, klen, 1);
+        let mut oh = 0u64;
+        for &n in &lens {
+            let data = pattern(dp, n, 7);
+            let want = rc::rc4(&key, &data);
+            let got = vx::guard(|| Rc4::new(&Rc4Key::from_slice(&key)).process(&data));
+            let ok = matches!(&got, Ok(g) if *g == want);
+            if !ok {
+                c.fail("C23/rc4-output-differs", format!("key={} data_len={n} pattern={} want={} got={:?}", vx::hex(&key), PATTERN_NAMES[dp], vx::hex(&want[..want.len().min(32)]), got.map(|g| vx::hex(&g[..g.len().min(32)]))));
+                break;
+            }
+            let ct = got.unwrap();
+            // decrypt(encrypt(x)) == x
+            let back = vx::guard(|| Rc4::new(&Rc4Key::new(key.clone())).process(&ct));
+            if !matches!(&back, Ok(b) if *b == data) {
+                c.fail("C23/rc4-not-an-involution", format!("key={} data_len={n}", vx::hex(&key)));
+            }
+            // in place, and in two pieces (the cipher state carries over)
+            let split = n / 3;
+            let pieces = vx::guard(|| {
+                let mut r = Rc4::new(&Rc4Key::from_slice(&key));
+                let mut a = r.process(&data[..split]);
+                let mut rest = data[split..].to_vec();
+                r.process_in_place(&mut rest);
+                a.extend(rest);
+                a
+            });
+            if !matches!(&pieces, Ok(p) if *p == want) {
+                c.fail("C23/rc4-split-or-in-place-differs", format!("key={} data_len={n} split={split}", vx::hex(&key)));
+            }
+            oh = vx::hmix(oh, ok as u64);
+        }
+        c.add_evaluations(lens.len() as u64);
+        c.outcome(oh);
+        c.sample(json!({"key_len": klen, "key_pattern": PATTERN_NAMES[kp], "data_pattern": PATTERN_NAMES[dp], "data_lengths": lens.len()}));
+    });
+}
+
+// ================================================================ AES
+
+fn mk_aes(key: &[u8]) -> Result<Aes, String> {
+    let k = if key.len() == 16 { AesKey::new_128(key.to_vec()) } else { AesKey::new_256(key.to_vec()) };
+    k.map(Aes::new).map_err(|e| e.to_string())
+}
+
+fn aes_section(rep: &mut Report, thorough: bool) {
+    let mut lens: Vec<usize> = (0..=64).collect();
+    lens.extend([255, 256, 257, 4096]);
+    if thorough {
+        lens.extend(65..=160);
+        lens.extend([1023, 1024, 1025, 65536]);
+    }
+    rep.explore("aes-cbc", Explore::full(), |c: &mut Ctx| {
+        let ksize = *c.pick_from("key_bytes", &[16usize, 32]);
+        let kp = c.choose("key_pattern", 4);
+        let ivp = 1 + c.choose("iv_pattern", 3);
+        c.input(vx::h64(&(ksize, kp, ivp)));
+        c.nontrivial();
+        let key = pattern(kp, ksize, 3);
+        let iv: [u8; 16] = pattern(ivp, 16, 5).try_into().unwrap();
+        let aes = match mk_aes(&key) {
+            Ok(a) => a,
+            Err(e) => {
+                c.fail("C23/aes-key-rejected", format!("{ksize}-byte key: {e}"));
+                return;
+            }
+        };
+        let mut oh = 0u64;
+        for &n in &lens {
+            for dp in [2usize, 3] {
+                let data = pattern(dp, n, n);
+                let tag = || format!("AES-{} key={} iv={} data_len={n} pattern={}", ksize * 8, vx::hex(&key), vx::hex(&iv), PATTERN_NAMES[dp]);
+                let want = rc::aes_cbc_pkcs7_encrypt(&key, &iv, &data);
+                let got = vx::guard(|| aes.encrypt_cbc(&data, &iv).map_err(|e| e.to_string()));
+                match &got {
+                    Ok(Ok(g)) if *g == want => {}
+                    other => {
+                        c.fail("C23/aes-cbc-pkcs7-ciphertext-differs", format!("{} want_len={} got={:?}", tag(), want.len(), other.as_ref().map(|r| r.as_ref().map(|g| g.len()))));
+                        continue;
+                    }
+                }
+                let back = vx::guard(|| aes.decrypt_cbc(&want, &iv).map_err(|e| e.to_string()));
+                if !matches!(&back, Ok(Ok(b)) if *b == data) {
+                    c.fail("C23/aes-cbc-pkcs7-decrypt-not-inverse", format!("{} got={:?}", tag(), back.map(|r| r.map(|b| b.len()))));
+                }
+                if n % 16 == 0 {
+                    let want_raw = rc::aes_cbc_encrypt_nopad(&key, &iv, &data);
+                    let got_raw = vx::guard(|| aes.encrypt_cbc_raw(&data, &iv).map_err(|e| e.to_string()));
+                    if !matches!(&got_raw, Ok(Ok(g)) if *g == want_raw) {
+                        c.fail("C23/aes-cbc-raw-ciphertext-differs", tag());
+                    }
+                    let back_raw = vx::guard(|| aes.decrypt_cbc_raw(&want_raw, &iv).map_err(|e| e.to_string()));
+                    if !matches!(&back_raw, Ok(Ok(b)) if *b == data) {
+                        c.fail("C23/aes-cbc-raw-decrypt-not-inverse", tag());
+                    }
+                    if n > 0 && n <= 256 {
+                        // ECB = every block on its own
+                        let a = rc::Aes::new(&key);
+                        let mut want_ecb = Vec::new();
+                        for ch in data.chunks(16) {
+                            let mut b: [u8; 16] = ch.try_into().unwrap();
+                            a.encrypt_block(&mut b);
+                            want_ecb.extend_from_slice(&b);
+                        }
+                        let got_ecb = vx::guard(|| aes.encrypt_ecb(&data).map_err(|e| e.to_string()));
+                        if !matches!(&got_ecb, Ok(Ok(g)) if *g == want_ecb) {
+                            c.fail("C23/aes-ecb-ciphertext-differs", tag());
+                        }
+                        let back_ecb = vx::guard(|| aes.decrypt_ecb(&want_ecb).map_err(|e| e.to_string()));
+                        if !matches!(&back_ecb, Ok(Ok(b)) if *b == data) {
+                            c.fail("C23/aes-ecb-decrypt-not-inverse", tag());
+                        }
+                    }
+                }
+                oh = vx::hmix(oh, n as u64);
+            }
+        }
+        c.add_evaluations(2 * lens.len() as u64);
+        c.outcome(oh);
+        c.sample(json!({"key_bits": ksize * 8, "key_pattern": PATTERN_NAMES[kp], "iv_pattern": PATTERN_NAMES[ivp], "data_lengths": lens.len(), "data_patterns": 2}));
+    });
+}
+
+// ================================================================ permissions (Table 22)
+
+fn permissions_section(rep: &mut Report) {
+    rep.explore("permissions", Explore::full(), |c: &mut Ctx| {
+        let m = c.choose("flag_set", 256);
+        c.input(m as u64);
+        if m != 0 {
+            c.nontrivial();
+        }
+        let f = PermissionFlags {
+            print: m & 1 != 0,
+            modify_contents: m & 2 != 0,
+            copy: m & 4 != 0,
+            modify_annotations: m & 8 != 0,
+            fill_forms: m & 16 != 0,
+            accessibility: m & 32 != 0,
+            assemble: m & 64 != 0,
+            print_high_quality: m & 128 != 0,
+        };
+        // Table 22: bit positions (1-based) 3 print, 4 modify, 5 copy, 6 annotations, 9 fill forms,
+        // 10 extract for accessibility, 11 assemble, 12 high-quality print; bits 1-2 zero,
+        // 7-8 and 13-32 one
+        let bitpos = [3u32, 4, 5, 6, 9, 10, 11, 12];
+        let mut want: u32 = 0xFFFF_F0C0;
+        for (i, b) in bitpos.iter().enumerate() {
+            if m & (1 << i) != 0 {
+                want |= 1 << (b - 1);
+            }
+        }
+        let p = Permissions::from_flags(f);
+        if p.bits() != want {
+            c.fail("C23/permission-bits-differ-from-table-22", format!("flags={f:?} want={want:#010x} got={:#010x}", p.bits()));
+        }
+        let q = Permissions::from_bits(want);
+        let back = q.flags();
+        let got_m = [back.print, back.modify_contents, back.copy, back.modify_annotations, back.fill_forms, back.accessibility, back.assemble, back.print_high_quality]
+            .iter()
+            .enumerate()
+            .fold(0usize, |a, (i, b)| a | ((*b as usize) << i));
+        if got_m != m || q.bits() != want {
+            c.fail("C23/permission-flags-do-not-read-back", format!("bits={want:#010x} want_flags={m:#010b} got={got_m:#010b}"));
+        }
+        if m == 255 && Permissions::all().bits() != want {
+            c.fail("C23/permissions-all-differs", format!("{:#010x}", Permissions::all().bits()));
+        }
+        if m == 0 && Permissions::new().bits() != want {
+            c.fail("C23/permissions-none-differs", format!("{:#010x}", Permissions::new().bits()));
+        }
+        c.outcome(p.bits() as u64);
+        c.sample(json!({"flags": format!("{m:#010b}"), "bits": format!("{want:#010x}")}));
+    });
+}
+
+// ================================================================ R2–R4 handler API
+
+/// Which byte string the library hashed for this password, judged from one output.
+fn classify_pw_bytes(c: &mut Ctx, what: &str, ok_spec: bool, ok_utf8: bool, detail: String) {
+    if ok_spec {
+        return;
+    }
+    if ok_utf8 {
+        c.fail("C23/r2-r4-password-hashed-as-utf8-not-pdfdocencoding", format!("{what}: {detail}"));
+    } else {
+        c.fail(format!("C23/{what}-differs-from-algorithm"), detail);
+    }
+}
+
+fn handler_rc4_section(rep: &mut Report, thorough: bool) {
+    let ps: Vec<u32> = if thorough { P_QUICK.iter().chain(P_MORE.iter()).copied().collect() } else { P_QUICK.to_vec() };
+    rep.explore("handler-rc4", Explore::full(), |c: &mut Ctx| {
+        let rev = c.choose("revision", 3);
+        let fam = c.choose("password_family", 4);
+        let om = c.choose("owner_mode", 3);
+        let p = *c.pick_from("P", &ps);
+        let idk = c.choose("file_id", 3);
+        c.input(vx::h64(&(rev, fam, om, p, idk)));
+        c.nontrivial();
+        let (h, r, klen, hname) = handler_for(rev);
+        let id = file_id(idk);
+        let perms = Permissions::from_bits(p);
+        let mut oh = 0u64;
+        for len in 0..=127usize {
+            let user = pw_string(fam, len, 0);
+            let owner = owner_for(om, fam, len, &user);
+            let tag = || format!("{hname} user={user:?}({len} bytes) owner={owner:?} P={p:#010x} id={}", vx::hex(&id));
+            let (up, op) = (UserPassword(user.clone()), OwnerPassword(owner.clone()));
+            // the two candidate byte views of the passwords
+            let views: Vec<(Vec<u8>, Vec<u8>)> = {
+                let mut v = Vec::new();
+                if let (Some(u), Some(o)) = (pdfdoc_bytes(&user), pdfdoc_bytes(&owner)) {
+                    v.push((u, o));
+                }
+                v.push((user.as_bytes().to_vec(), owner.as_bytes().to_vec()));
+                v
+            };
+            // ---- Algorithm 3
+            let got_o = match vx::guard(|| h.compute_owner_hash(&op, &up)) {
+                Ok(o) => o,
+                Err(e) => {
+                    c.fail("C23/compute-owner-hash-panics", format!("{}: {e}", tag()));
+                    continue;
+                }
+            };
+            let o_matches = |u: &[u8], o: &[u8]| {
+                let a = rc::alg3_o(o, u, r, klen);
+                // "no owner password": spec substitutes the user password; hashing the empty string is accepted too
+                let b: [u8; 32] = {
+                    let key = rc::alg3_owner_rc4_key(o, r, klen);
+                    let mut v = rc::rc4(&key, &rc::pad_password(u));
+                    if r >= 3 {
+                        for i in 1..=19u8 {
+                            let k: Vec<u8> = key.iter().map(|x| x ^ i).collect();
+                            v = rc::rc4(&k, &v);
+                        }
+                    }
+                    v.try_into().unwrap()
+                };
+                got_o[..] == a[..] || got_o[..] == b[..]
+            };
+            let ok_spec = o_matches(&views[0].0, &views[0].1);
+            let ok_utf8 = o_matches(&views.last().unwrap().0, &views.last().unwrap().1);
+            classify_pw_bytes(c, "O-entry", ok_spec, ok_utf8, format!("{} got O={}", tag(), vx::hex(&got_o)));
+            // ---- Algorithm 2 and 4/5, computed on the library's own O so that one defect is reported once
+            let got_key = lib(|| h.compute_encryption_key(&up, &got_o, perms, Some(&id)));
+            let got_u = lib(|| h.compute_user_hash(&up, &got_o, perms, Some(&id)));
+            let key_of = |u: &[u8]| rc::alg2_file_key(u, &got_o, p as i32, &id, r, klen, true);
+            match &got_key {
+                Ok(k) => {
+                    let ok_spec = k.as_bytes() == &key_of(&views[0].0)[..];
+                    let ok_utf8 = k.as_bytes() == &key_of(&views.last().unwrap().0)[..];
+                    classify_pw_bytes(c, "file-key", ok_spec, ok_utf8, format!("{} got key={}", tag(), vx::hex(k.as_bytes())));
+                }
+                Err(e) => c.fail("C23/compute-encryption-key-fails", format!("{}: {e}", tag())),
+            }
+            match &got_u {
+                Ok(u) => {
+                    let u_ok = |pw: &[u8]| {
+                        let k = key_of(pw);
+                        if r == 2 {
+                            u[..] == rc::alg4_u(&k)[..]
+                        } else {
+                            u.len() == 32 && u[..16] == rc::alg5_u16(&k, &id)[..]
+                        }
+                    };
+                    let ok_spec = u_ok(&views[0].0);
+                    let ok_utf8 = u_ok(&views.last().unwrap().0);
+                    classify_pw_bytes(c, "U-entry", ok_spec, ok_utf8, format!("{} got U={}", tag(), vx::hex(u)));
+                    // ---- Algorithm 6 through the API
+                    match lib(|| h.validate_user_password(&up, u, &got_o, perms, Some(&id))) {
+                        Ok(true) => {}
+                        other => c.fail("C23/validate-user-password-rejects-the-user-password", format!("{}: {other:?}", tag())),
+                    }
+                    let wrong = UserPassword(format!("{user}~"));
+                    if len < 32 {
+                        match lib(|| h.validate_user_password(&wrong, u, &got_o, perms, Some(&id))) {
+                            Ok(false) => {}
+                            other => c.fail("C23/validate-user-password-accepts-another-password", format!("{} tried {:?}: {other:?}", tag(), wrong.0)),
+                        }
+                    }
+                    // ---- Algorithm 7 through the API
+                    let res = lib(|| h.validate_owner_password(&op, &got_o, &up, perms, Some(&id), None));
+                    // what the reference says about this owner password on these entries
+                    let q = rc::Rc4Params { r, key_len: klen, o: &got_o, u, p: p as i32, id0: &id, encrypt_metadata: true };
+                    let ref_accepts = rc::alg7_owner(owner.as_bytes(), &q).is_some();
+                    match (&res, ref_accepts) {
+                        (Ok(true), true) | (Ok(false), false) => {}
+                        (Ok(false), true) => {
+                            // known defect signature: the API rebuilds the user password as *text* from the
+                            // decrypted /O (cut at the first 0x28, lossy UTF-8) instead of using the 32 bytes
+                            let first32 = &user.as_bytes()[..user.len().min(32)];
+                            let text_rebuild_breaks = user.is_empty() || first32.contains(&0x28) || std::str::from_utf8(first32).is_err();
+                            if text_rebuild_breaks {
+                                c.fail("C23/validate-owner-password-rebuilds-user-password-as-text", format!("{}: owner password rejected", tag()));
+                            } else {
+                                c.fail("C23/validate-owner-password-rejects-the-owner-password", format!("{}: {res:?}", tag()));
+                            }
+                        }
+                        (other, _) => c.fail("C23/validate-owner-password-wrong-answer", format!("{}: got {other:?}, Algorithm 7 says {ref_accepts}", tag())),
+                    }
+                }
+                Err(e) => c.fail("C23/compute-user-hash-fails", format!("{}: {e}", tag())),
+            }
+            oh = vx::hmix(oh, vx::h64(&(got_key.is_ok(), got_u.is_ok())));
+        }
+        c.add_evaluations(127);
+        c.outcome(oh);
+        c.sample(json!({"handler": hname, "family": FAMILIES[fam], "owner": OWNER_MODES[om], "P": format!("{p:#010x}"), "file_id": vx::hex(&id), "password_lengths": "0..=127"}));
+    });
+}
+
+// ================================================================ R2–R4 as the reader uses them
+
+fn pdf_str(b: &[u8]) -> PdfObject {
+    PdfObject::String(PdfString::new(b.to_vec()))
+}
+fn pdf_name(s: &str) -> PdfObject {
+    PdfObject::Name(PdfName(s.to_string()))
+}
+
+fn std_cf(cfm: &str, len: i64) -> PdfObject {
+    let mut f = PdfDictionary::new();
+    f.insert("Type".into(), pdf_name("CryptFilter"));
+    f.insert("CFM".into(), pdf_name(cfm));
+    f.insert("AuthEvent".into(), pdf_name("DocOpen"));
+    f.insert("Length".into(), PdfObject::Integer(len));
+    let mut cf = PdfDictionary::new();
+    cf.insert("StdCF".into(), PdfObject::Dictionary(f));
+    PdfObject::Dictionary(cf)
+}
+
+fn reader_rc4_section(rep: &mut Report, thorough: bool) {
+    let ps: Vec<u32> = if thorough { P_QUICK.to_vec() } else { vec![0xFFFF_FFFC, 0xFFFF_F0C4, 0x8000_0004] };
+    const SCHEMES: [&str; 4] = ["R2", "R3", "R4-V2", "R4-AESV2"];
+    rep.explore("reader-rc4", Explore::full(), |c: &mut Ctx| {
+        let sch = c.choose("scheme", 4);
+        let fam = c.choose("password_family", 4);
+        let om = c.choose("owner_mode", 2);
+        let p = *c.pick_from("P", &ps);
+        let idk = c.choose("file_id", 2);
+        let em = if sch >= 2 { !c.flag("cleartext_metadata") } else { true };
+        c.input(vx::h64(&(sch, fam, om, p, idk, em)));
+        c.nontrivial();
+        let (r, klen): (u8, usize) = match sch {
+            0 => (2, 5),
+            1 => (3, 16),
+            _ => (4, 16),
+        };
+        let id = file_id(idk);
+        let mut oh = 0u64;
+        for len in 0..=127usize {
+            let user = pw_string(fam, len, 0);
+            let mut owner = owner_for(om, fam, len, &user);
+            if owner.is_empty() {
+                // Algorithm 3 (a): without an owner password the user password takes its place
+                owner = user.clone();
+            }
+            // byte-level: the reference hashes the bytes the library's String carries
+            let (ub, ob) = (user.as_bytes(), owner.as_bytes());
+            let o = rc::alg3_o(ob, ub, r, klen);
+            let key = rc::alg2_file_key(ub, &o, p as i32, &id, r, klen, em);
+            let u: Vec<u8> = if r == 2 {
+                rc::alg4_u(&key).to_vec()
+            } else {
+                let mut u = rc::alg5_u16(&key, &id).to_vec();
+                u.extend_from_slice(&[0x5A; 16]);
+                u
+            };
+            let mut d = PdfDictionary::new();
+            d.insert("Filter".into(), pdf_name("Standard"));
+            d.insert("O".into(), pdf_str(&o));
+            d.insert("U".into(), pdf_str(&u));
+            d.insert("P".into(), PdfObject::Integer(p as i32 as i64));
+            match sch {
+                0 => {
+                    d.insert("V".into(), PdfObject::Integer(1));
+                    d.insert("R".into(), PdfObject::Integer(2));
+                }
+                1 => {
+                    d.insert("V".into(), PdfObject::Integer(2));
+                    d.insert("R".into(), PdfObject::Integer(3));
+                    d.insert("Length".into(), PdfObject::Integer(128));
+                }
+                _ => {
+                    d.insert("V".into(), PdfObject::Integer(4));
+                    d.insert("R".into(), PdfObject::Integer(4));
+                    d.insert("Length".into(), PdfObject::Integer(128));
+                    d.insert("CF".into(), std_cf(if sch == 2 { "V2" } else { "AESV2" }, 16));
+                    d.insert("StmF".into(), pdf_name("StdCF"));
+                    d.insert("StrF".into(), pdf_name("StdCF"));
+                    d.insert("EncryptMetadata".into(), PdfObject::Boolean(em));
+                }
+            }
+            let tag = || format!("{} EncryptMetadata={em} user={user:?} owner={owner:?} P={p:#010x} id={}", SCHEMES[sch], vx::hex(&id));
+            let try_pw = |pw: &str, as_owner: bool| -> Result<(bool, Option<Vec<u8>>), String> {
+                match vx::guard(|| {
+                    let mut h = EncryptionHandler::new(&d, Some(id.clone())).map_err(|e| e.to_string())?;
+                    let ok = if as_owner { h.unlock_with_owner_password(pw) } else { h.unlock_with_user_password(pw) }.map_err(|e| e.to_string())?;
+                    Ok::<_, String>((ok, h.encryption_key().map(|k| k.as_bytes().to_vec())))
+                }) {
+                    Ok(r) => r,
+                    Err(p) => Err(format!("PANIC {p}")),
+                }
+            };
+            match try_pw(&user, false) {
+                Ok((true, Some(k))) if k == key => {}
+                Ok((true, Some(k))) => c.fail("C23/reader-user-unlock-derives-wrong-file-key", format!("{} want={} got={}", tag(), vx::hex(&key), vx::hex(&k))),
+                other => c.fail("C23/reader-rejects-user-password", format!("{}: {other:?}", tag())),
+            }
+            match try_pw(&owner, true) {
+                Ok((true, Some(k))) if k == key => {}
+                Ok((true, Some(k))) => c.fail("C23/reader-owner-unlock-derives-wrong-file-key", format!("{} want={} got={}", tag(), vx::hex(&key), vx::hex(&k))),
+                other => c.fail("C23/reader-rejects-owner-password", format!("{}: {other:?}", tag())),
+            }
+            // a password that is neither (reference decides) must be refused in both roles
+            let wrong = format!("{}#", &user);
+            let q = rc::Rc4Params { r, key_len: klen, o: &o, u: &u, p: p as i32, id0: &id, encrypt_metadata: em };
+            if rc::alg6_user(wrong.as_bytes(), &q).is_none() && rc::alg7_owner(wrong.as_bytes(), &q).is_none() {
+                for as_owner in [false, true] {
+                    match try_pw(&wrong, as_owner) {
+                        Ok((false, None)) => {}
+                        other => c.fail("C23/reader-accepts-a-wrong-password", format!("{} tried {wrong:?} as_owner={as_owner}: {other:?}", tag())),
+                    }
+                }
+            }
+            oh = vx::hmix(oh, len as u64);
+        }
+        c.add_evaluations(127);
+        c.outcome(oh);
+        c.sample(json!({"scheme": SCHEMES[sch], "family": FAMILIES[fam], "owner": OWNER_MODES[om], "P": format!("{p:#010x}"), "EncryptMetadata": em, "password_lengths": "0..=127"}));
+    });
+}
+
+// ================================================================ R5 / R6
+
+fn handler_aes256_section(rep: &mut Report, thorough: bool) {
+    let seeds: Vec<u64> = if thorough { vec![1, 2, 0xFFFF_FFFF_FFFF_FFFF] } else { vec![1] };
+    const BLOCK: usize = 16;
+    rep.explore("handler-aes256", Explore::full(), |c: &mut Ctx| {
+        let rev = *c.pick_from("revision", &[5u8, 6]);
+        // family 1 (all printable ASCII) is SASLprep-stable as well: ASCII space maps to itself.
+        // quick: the three families with punctuation / non-ASCII, owner distinct or equal to the user;
+        // thorough adds the alphanumeric family and the empty owner password
+        let fam = if thorough { c.choose("password_family", 4) } else { 1 + c.choose("password_family", 3) };
+        let om = c.choose("owner_mode", if thorough { 3 } else { 2 });
+        let seed = *c.pick_from("seed", &seeds);
+        let block = c.choose("length_block", 128 / BLOCK);
+        c.input(vx::h64(&(rev, fam, om, seed, block)));
+        c.nontrivial();
+        let h = if rev == 5 { StandardSecurityHandler::aes_256_r5() } else { StandardSecurityHandler::aes_256_r6() };
+        let mut oh = 0u64;
+        for len in block * BLOCK..(block + 1) * BLOCK {
+            let user = pw_string(fam, len, 0);
+            let owner = owner_for(om, fam, len, &user);
+            let (up, op) = (UserPassword(user.clone()), OwnerPassword(owner.clone()));
+            let (ub, ob) = (user.as_bytes(), owner.as_bytes());
+            let tag = || format!("R{rev} seed={seed} user={user:?}({len} bytes) owner={owner:?}");
+            oxidize_pdf::verif_hooks::seed_rng(Some(seed ^ (len as u64) << 8));
+            let fkey: [u8; 32] = pattern(3, 32, len).try_into().unwrap();
+            let ek = EncryptionKey::new(fkey.to_vec());
+
+            // ---- library makes the entries (Algorithms 8, 9), the reference verifies them
+            let u = lib(|| if rev == 5 { h.compute_r5_user_hash(&up) } else { h.compute_r6_user_hash(&up) });
+            let Ok(u) = u else {
+                c.fail("C23/r56-compute-user-hash-fails", format!("{}: {:?}", tag(), u.err()));
+                continue;
+            };
+            if u.len() != 48 {
+                c.fail("C23/r56-U-entry-not-48-bytes", format!("{}: {}", tag(), u.len()));
+                continue;
+            }
+            if !rc::alg11_user_ok(rev, ub, &u) {
+                c.fail("C23/r56-U-entry-differs-from-algorithm-8", format!("{} U={}", tag(), vx::hex(&u)));
+            }
+            let o = lib(|| if rev == 5 { h.compute_r5_owner_hash(&op, &u) } else { h.compute_r6_owner_hash(&op, &u) });
+            let Ok(o) = o else {
+                c.fail("C23/r56-compute-owner-hash-fails", format!("{}: {:?}", tag(), o.err()));
+                continue;
+            };
+            if o.len() != 48 || !rc::alg12_owner_ok(rev, ob, &o, &u) {
+                c.fail("C23/r56-O-entry-differs-from-algorithm-9", format!("{} O={}", tag(), vx::hex(&o)));
+            }
+            let ue = lib(|| if rev == 5 { h.compute_r5_ue_entry(&up, &u, &ek) } else { h.compute_r6_ue_entry(&up, &u, &ek) });
+            let oe = lib(|| if rev == 5 { h.compute_r5_oe_entry(&op, &o, &u, &fkey) } else { h.compute_r6_oe_entry(&op, &o, &u, &fkey) });
+            match (&ue, &oe) {
+                (Ok(ue), Ok(oe)) => {
+                    let u48: [u8; 48] = u.clone().try_into().unwrap();
+                    let (vs, ks): ([u8; 8], [u8; 8]) = (u[32..40].try_into().unwrap(), u[40..48].try_into().unwrap());
+                    let (_, want_ue) = rc::alg8_u_ue(rev, ub, &fkey, &vs, &ks);
+                    if ue[..] != want_ue[..] {
+                        c.fail("C23/r56-UE-differs-from-algorithm-8", format!("{} want={} got={}", tag(), vx::hex(&want_ue), vx::hex(ue)));
+                    }
+                    if o.len() == 48 {
+                        let (ovs, oks): ([u8; 8], [u8; 8]) = (o[32..40].try_into().unwrap(), o[40..48].try_into().unwrap());
+                        let (want_o, want_oe) = rc::alg9_o_oe(rev, ob, &fkey, &ovs, &oks, &u48);
+                        if oe[..] != want_oe[..] || o[..] != want_o[..] {
+                            c.fail("C23/r56-OE-differs-from-algorithm-9", format!("{} want={} got={}", tag(), vx::hex(&want_oe), vx::hex(oe)));
+                        }
+                        // Algorithm 2.A by the reference on the library's entries
+                        for (pw, role) in [(ub, rc::Which::User), (ob, rc::Which::Owner)] {
+                            match rc::alg2a_file_key(rev, pw, &o, &u, oe, ue) {
+                                Some((w, k)) if k == fkey && (w == role || ub == ob) => {}
+                                other => c.fail("C23/r56-entries-do-not-yield-the-file-key-by-algorithm-2A", format!("{} role={role:?}: {:?}", tag(), other.map(|x| (x.0, vx::hex(&x.1))))),
+                            }
+                        }
+                    }
+                }
+                other => c.fail("C23/r56-UE-OE-computation-fails", format!("{}: {:?}", tag(), (other.0.as_ref().err(), other.1.as_ref().err()))),
+            }
+
+            // ---- reference makes the entries, the library validates and recovers (2.A, 11, 12)
+            let (vs, ks, ovs, oks): ([u8; 8], [u8; 8], [u8; 8], [u8; 8]) = (pattern(3, 8, len + 1).try_into().unwrap(), pattern(3, 8, len + 2).try_into().unwrap(), pattern(3, 8, len + 3).try_into().unwrap(), pattern(2, 8, len + 4).try_into().unwrap());
+            let (ru, rue) = rc::alg8_u_ue(rev, ub, &fkey, &vs, &ks);
+            let (ro, roe) = rc::alg9_o_oe(rev, ob, &fkey, &ovs, &oks, &ru);
+            let v_user = lib(|| if rev == 5 { h.validate_r5_user_password(&up, &ru) } else { h.validate_r6_user_password(&up, &ru) });
+            if !matches!(v_user, Ok(true)) {
+                c.fail("C23/r56-validate-user-rejects-reference-U", format!("{}: {v_user:?}", tag()));
+            }
+            let v_owner = lib(|| if rev == 5 { h.validate_r5_owner_password(&op, &ro, &ru) } else { h.validate_r6_owner_password(&op, &ro, &ru) });
+            if !matches!(v_owner, Ok(true)) {
+                c.fail("C23/r56-validate-owner-rejects-reference-O", format!("{}: {v_owner:?}", tag()));
+            }
+            let k_user = lib(|| if rev == 5 { h.recover_r5_encryption_key(&up, &ru, &rue) } else { h.recover_r6_encryption_key(&up, &ru, &rue) });
+            if !matches!(&k_user, Ok(k) if k.as_bytes() == fkey) {
+                c.fail("C23/r56-file-key-from-UE-differs", format!("{}: {:?}", tag(), k_user.map(|k| vx::hex(k.as_bytes()))));
+            }
+            let k_owner = lib(|| if rev == 5 { h.recover_r5_owner_encryption_key(&op, &ro, &ru, &roe) } else { h.recover_r6_owner_encryption_key(&op, &ro, &ru, &roe) });
+            if !matches!(&k_owner, Ok(k) if k[..] == fkey) {
+                c.fail("C23/r56-file-key-from-OE-differs", format!("{}: {:?}", tag(), k_owner.map(|k| vx::hex(&k))));
+            }
+            // wrong passwords (reference decides that they are wrong)
+            let wrong = format!("{user}#");
+            if wrong.len() <= 127 && !rc::alg11_user_ok(rev, wrong.as_bytes(), &ru) {
+                let w = lib(|| if rev == 5 { h.validate_r5_user_password(&UserPassword(wrong.clone()), &ru) } else { h.validate_r6_user_password(&UserPassword(wrong.clone()), &ru) });
+                if !matches!(w, Ok(false)) {
+                    c.fail("C23/r56-validate-user-accepts-another-password", format!("{} tried {wrong:?}: {w:?}", tag()));
+                }
+                let w = lib(|| if rev == 5 { h.validate_r5_owner_password(&OwnerPassword(wrong.clone()), &ro, &ru) } else { h.validate_r6_owner_password(&OwnerPassword(wrong.clone()), &ro, &ru) });
+                if !matches!(w, Ok(false)) && !rc::alg12_owner_ok(rev, wrong.as_bytes(), &ro, &ru) {
+                    c.fail("C23/r56-validate-owner-accepts-another-password", format!("{} tried {wrong:?}: {w:?}", tag()));
+                }
+            }
+            // the same through the reader's handler
+            {
+                let mut d = PdfDictionary::new();
+                d.insert("Filter".into(), pdf_name("Standard"));
+                d.insert("V".into(), PdfObject::Integer(5));
+                d.insert("R".into(), PdfObject::Integer(rev as i64));
+                d.insert("Length".into(), PdfObject::Integer(256));
+                d.insert("CF".into(), std_cf("AESV3", 32));
+                d.insert("StmF".into(), pdf_name("StdCF"));
+                d.insert("StrF".into(), pdf_name("StdCF"));
+                d.insert("O".into(), pdf_str(&ro));
+                d.insert("U".into(), pdf_str(&ru));
+                d.insert("OE".into(), pdf_str(&roe));
+                d.insert("UE".into(), pdf_str(&rue));
+                d.insert("P".into(), PdfObject::Integer(-4));
+                d.insert("Perms".into(), pdf_str(&rc::alg10_perms(-4, true, &fkey, [1, 2, 3, 4])));
+                for (pw, as_owner) in [(&user, false), (&owner, true)] {
+                    let r = vx::guard(|| {
+                        let mut eh = EncryptionHandler::new(&d, None).map_err(|e| e.to_string())?;
+                        let ok = if as_owner { eh.unlock_with_owner_password(pw) } else { eh.unlock_with_user_password(pw) }.map_err(|e| e.to_string())?;
+                        Ok::<_, String>((ok, eh.encryption_key().map(|k| k.as_bytes().to_vec())))
+                    });
+                    match r {
+                        Ok(Ok((true, Some(k)))) if k == fkey => {}
+                        other => c.fail("C23/r56-reader-handler-does-not-recover-the-file-key", format!("{} as_owner={as_owner}: {other:?}", tag())),
+                    }
+                }
+            }
+            // ---- Algorithm 2.B itself (R6), user form and owner form
+            if rev == 6 {
+                for udata in [&[][..], &ru[..]] {
+                    let want = rc::alg2b_hash(ub, &vs, udata);
+                    let got = lib(|| compute_hash_r6_algorithm_2b(ub, &vs, udata));
+                    if !matches!(&got, Ok(g) if g[..] == want[..]) {
+                        c.fail("C23/algorithm-2B-hash-differs", format!("{} salt={} udata_len={} want={} got={:?}", tag(), vx::hex(&vs), udata.len(), vx::hex(&want), got.map(|g| vx::hex(&g))));
+                    }
+                }
+            }
+            oh = vx::hmix(oh, len as u64);
+        }
+        oxidize_pdf::verif_hooks::seed_rng(None);
+        c.add_evaluations(BLOCK as u64 - 1);
+        c.outcome(oh);
+        c.sample(json!({"revision": rev, "family": FAMILIES[fam], "owner": OWNER_MODES[om], "seed": seed, "password_lengths": format!("{}..{}", block * BLOCK, (block + 1) * BLOCK)}));
+    });
+}
+
+fn perms_entry_section(rep: &mut Report, thorough: bool) {
+    let ps: Vec<u32> = if thorough { P_QUICK.iter().chain(P_MORE.iter()).copied().collect() } else { P_QUICK.to_vec() };
+    rep.explore("perms-entry", Explore::full(), |c: &mut Ctx| {
+        let rev = *c.pick_from("revision", &[5u8, 6]);
+        let p = *c.pick_from("P", &ps);
+        let em = !c.flag("cleartext_metadata");
+        let kp = c.choose("key_pattern", 4);
+        let seed = *c.pick_from("seed", &[1u64, 2, 3]);
+        c.input(vx::h64(&(rev, p, em, kp, seed)));
+        c.nontrivial();
+        let h = if rev == 5 { StandardSecurityHandler::aes_256_r5() } else { StandardSecurityHandler::aes_256_r6() };
+        let fkey: [u8; 32] = pattern(kp, 32, 9).try_into().unwrap();
+        let ek = EncryptionKey::new(fkey.to_vec());
+        let perms = Permissions::from_bits(p);
+        let tag = format!("R{rev} P={p:#010x} EncryptMetadata={em} key={} seed={seed}", PATTERN_NAMES[kp]);
+        oxidize_pdf::verif_hooks::seed_rng(Some(seed));
+        let got = lib(|| h.compute_perms_entry(perms, &ek, em));
+        oxidize_pdf::verif_hooks::seed_rng(None);
+        match &got {
+            Ok(g) if g.len() == 16 => {
+                let plain = rc::alg13_perms_plain(g, &fkey);
+                let tail: [u8; 4] = plain[12..16].try_into().unwrap();
+                let want = rc::alg10_perms(p as i32, em, &fkey, tail);
+                if g[..] != want[..] {
+                    c.fail("C23/perms-entry-differs-from-algorithm-10", format!("{tag}: decrypts to {} want {}", vx::hex(&plain), vx::hex(&rc::alg10_perms_plain(p as i32, em, tail))));
+                }
+                if let Err(e) = rc::alg13_perms_check(g, &fkey, p as i32, em) {
+                    c.fail("C23/perms-entry-fails-algorithm-13", format!("{tag}: {e}"));
+                }
+            }
+            other => c.fail("C23/perms-entry-computation-fails", format!("{tag}: {other:?}")),
+        }
+        // library validates a reference entry; other P refused; EncryptMetadata read back
+        let rp = rc::alg10_perms(p as i32, em, &fkey, [0xDE, 0xAD, 0xBE, 0xEF]);
+        match lib(|| h.validate_r6_perms(&rp, &ek, perms)) {
+            Ok(true) => {}
+            other => c.fail("C23/perms-validation-rejects-reference-entry", format!("{tag}: {other:?}")),
+        }
+        match lib(|| h.validate_r6_perms(&rp, &ek, Permissions::from_bits(p ^ 0x10))) {
+            Ok(false) => {}
+            other => c.fail("C23/perms-validation-accepts-other-permissions", format!("{tag}: {other:?}")),
+        }
+        match lib(|| h.extract_r6_encrypt_metadata(&rp, &ek)) {
+            Ok(Some(b)) if b == em => {}
+            other => c.fail("C23/perms-encrypt-metadata-flag-misread", format!("{tag}: {other:?}")),
+        }
+        c.outcome(vx::h64(&got.is_ok()));
+        c.sample(json!({"case": tag}));
+    });
+}
+
+fn saslprep_section(rep: &mut Report) {
+    // RFC 4013 §2.1/2.2 with RFC 3454 tables B.1 (U+00AD maps to nothing), C.1.2 (U+00A0 maps to
+    // U+0020) and NFKC (U+00AA FEMININE ORDINAL INDICATOR has the compatibility decomposition 'a')
+    const CASES: [(&str, &str); 3] = [("pass\u{00AD}word", "password"), ("two\u{00A0}words", "two words"), ("\u{00AA}b", "ab")];
+    rep.explore("saslprep", Explore::full(), |c: &mut Ctx| {
+        let rev = *c.pick_from("revision", &[5u8, 6]);
+        let (raw, prepped) = *c.pick_from("password", &CASES);
+        c.input(vx::h64(&(rev, raw)));
+        c.nontrivial();
+        let h = if rev == 5 { StandardSecurityHandler::aes_256_r5() } else { StandardSecurityHandler::aes_256_r6() };
+        let fkey = [7u8; 32];
+        let (u, _ue) = rc::alg8_u_ue(rev, prepped.as_bytes(), &fkey, &[1; 8], &[2; 8]);
+        let up = UserPassword(raw.to_string());
+        let got = lib(|| if rev == 5 { h.validate_r5_user_password(&up, &u) } else { h.validate_r6_user_password(&up, &u) });
+        c.outcome(vx::h64(&format!("{got:?}")));
+        match got {
+            Ok(true) => {}
+            Ok(false) => {
+                // known signature: the raw UTF-8 bytes are hashed
+                let (u_raw, _) = rc::alg8_u_ue(rev, raw.as_bytes(), &fkey, &[1; 8], &[2; 8]);
+                let raw_ok = lib(|| if rev == 5 { h.validate_r5_user_password(&up, &u_raw) } else { h.validate_r6_user_password(&up, &u_raw) });
+                if matches!(raw_ok, Ok(true)) {
+                    c.fail("C23/r5-r6-password-not-saslprepped", format!("R{rev} password {raw:?} (SASLprep form {prepped:?}) is hashed as its raw UTF-8"));
+                } else {
+                    c.fail("C23/r56-password-preparation-wrong", format!("R{rev} password {raw:?}: neither the SASLprep form nor the raw UTF-8 validates"));
+                }
+            }
+            Err(e) => c.fail("C23/r56-password-preparation-fails", format!("R{rev} password {raw:?}: {e}")),
+        }
+        c.sample(json!({"revision": rev, "password": raw, "saslprep": prepped}));
+    });
+}
+
+// ================================================================ per-object ciphers
+
+fn object_cipher_section(rep: &mut Report, thorough: bool) {
+    const IDS: [(u32, u16); 8] = [(1, 0), (255, 0), (256, 1), (65535, 65535), (65536, 0), (0x00FF_FFFF, 2), (0x0100_0001, 0), (12, 256)];
+    let mut lens: Vec<usize> = (0..=48).collect();
+    if thorough {
+        lens.extend([63, 64, 65, 255, 256, 257, 4096]);
+    }
+    const HANDLERS: [&str; 5] = ["rc4_40bit", "rc4_128bit", "aes_128_r4", "aes_256_r5", "aes_256_r6"];
+    rep.explore("object-cipher", Explore::full(), |c: &mut Ctx| {
+        let hk = c.choose("handler", 5);
+        let (num, gen) = *c.pick_from("object_id", &IDS);
+        let kp = 2 + c.choose("key_pattern", 2);
+        let seed = *c.pick_from("seed", &[1u64, 2]);
+        c.input(vx::h64(&(hk, num, gen, kp, seed)));
+        c.nontrivial();
+        let (h, klen) = match hk {
+            0 => (StandardSecurityHandler::rc4_40bit(), 5),
+            1 => (StandardSecurityHandler::rc4_128bit(), 16),
+            2 => (StandardSecurityHandler::aes_128_r4(), 16),
+            3 => (StandardSecurityHandler::aes_256_r5(), 32),
+            _ => (StandardSecurityHandler::aes_256_r6(), 32),
+        };
+        let fk = pattern(kp, klen, 4);
+        let ek = EncryptionKey::new(fk.clone());
+        let id = ObjectId::new(num, gen);
+        let tag = format!("{} object {num} {gen} key={}", HANDLERS[hk], vx::hex(&fk));
+        // Algorithm 1 key (the handler's public function is the RC4 form)
+        if hk <= 1 {
+            let want = rc::alg1_object_key(&fk, num, gen, false);
+            let got = vx::guard(|| h.compute_object_key(&ek, &id));
+            if !matches!(&got, Ok(g) if *g == want) {
+                c.fail("C23/object-key-differs-from-algorithm-1", format!("{tag} want={} got={:?}", vx::hex(&want), got.map(|g| vx::hex(&g))));
+            }
+        }
+        let mut oh = 0u64;
+        oxidize_pdf::verif_hooks::seed_rng(Some(seed));
+        for &n in &lens {
+            let data = pattern(3, n, n + 1);
+            for stream in [false, true] {
+                let ct = vx::guard(|| if stream { h.encrypt_stream(&data, &ek, &id) } else { h.encrypt_string(&data, &ek, &id) });
+                let Ok(ct) = ct else {
+                    c.fail("C23/object-encryption-panics", format!("{tag} data_len={n}: {:?}", ct.err()));
+                    continue;
+                };
+                let want_plain: Result<Vec<u8>, String> = match hk {
+                    0 | 1 => Ok(rc::rc4(&rc::alg1_object_key(&fk, num, gen, false), &ct)),
+                    2 => rc::pdf_aes_decrypt(&rc::alg1_object_key(&fk, num, gen, true), &ct),
+                    _ => rc::pdf_aes_decrypt(&fk, &ct),
+                };
+                if !matches!(&want_plain, Ok(p) if *p == data) {
+                    c.fail(
+                        if hk <= 1 { "C23/rc4-object-encryption-differs-from-algorithm-1" } else { "C23/aes-object-encryption-not-decryptable-by-reference" },
+                        format!("{tag} data_len={n} stream={stream} ciphertext_len={} reference says {:?}", ct.len(), want_plain.map(|p| p.len())),
+                    );
+                }
+                if hk >= 2 && ct.len() != 16 + (n / 16 + 1) * 16 {
+                    c.fail("C23/aes-object-ciphertext-length", format!("{tag} data_len={n}: {} bytes", ct.len()));
+                }
+                // the library decrypts reference ciphertext
+                let ref_ct = match hk {
+                    0 | 1 => rc::rc4(&rc::alg1_object_key(&fk, num, gen, false), &data),
+                    2 => rc::pdf_aes_encrypt(&rc::alg1_object_key(&fk, num, gen, true), &[0xA5; 16], &data),
+                    _ => rc::pdf_aes_encrypt(&fk, &[0x5A; 16], &data),
+                };
+                let back = vx::guard(|| if stream { h.decrypt_stream(&ref_ct, &ek, &id) } else { h.decrypt_string(&ref_ct, &ek, &id) });
+                if !matches!(&back, Ok(b) if *b == data) {
+                    c.fail("C23/object-decryption-of-reference-ciphertext-differs", format!("{tag} data_len={n} stream={stream}: {:?}", back.map(|b| b.len())));
+                }
+            }
+            oh = vx::hmix(oh, n as u64);
+        }
+        oxidize_pdf::verif_hooks::seed_rng(None);
+        c.add_evaluations(2 * lens.len() as u64);
+        c.outcome(oh);
+        c.sample(json!({"case": tag, "data_lengths": lens.len()}));
+    });
+}
